@@ -127,26 +127,43 @@ def rules(ctx):
 
     # ---------------------------------------------------------------- R09.2
     prods = [c for c in calls_in(sb.node) if src(c.func) in ('itertools.product', 'product')]
-    if len(prods) != 1:
-        raise AnalysisError("_solve_bruteforce: expected one itertools.product call, found %d" % len(prods))
-    pc = prods[0]
-    loop = enclosing_stmt(pc)
-    if not isinstance(loop, ast.For):
-        raise AnalysisError("_solve_bruteforce: product is not the iterator of a for loop")
+    if not prods:
+        raise AnalysisError("_solve_bruteforce: no itertools.product call found (anchor vanished)")
     from ..astutil import canon as _canon
-    dom = _canon(expand_names(sb.node, pc.args[0])) if pc.args else None
-    okd = isinstance(dom, ast.IfExp) and src(dom.test) == spinp and \
-        set(literal_tuple(dom.body) or ()) == {1, -1} and len(literal_tuple(dom.body) or ()) == 2 and \
-        set(literal_tuple(dom.orelse) or ()) == {0, 1} and len(literal_tuple(dom.orelse) or ()) == 2
-    if isinstance(dom, ast.IfExp) and src(dom.test) == 'not %s' % spinp:
-        okd = set(literal_tuple(dom.orelse) or ()) == {1, -1} and set(literal_tuple(dom.body) or ()) == {0, 1}
-    ctx.inst('R09.2', sb, dom if dom is not None else pc, okd,
-             "domain (1, -1) under the spin flag, (0, 1) otherwise" if okd else
-             "candidate domain `%s` is not {1,-1} for spin / {0,1} for boolean selected by `%s`" % (src(dom) if dom is not None else '', spinp))
+    # the search loop iterates a product call, or a local every assignment of which is a product call
+    loop = None
+    for n in g.stmts():
+        if isinstance(n, ast.For):
+            it = n.iter
+            if it in prods:
+                loop = n
+            elif isinstance(it, ast.Name):
+                vals = [v for s_, v in assignments_to(sb.node, it.id)]
+                if vals and all(v in prods for v in vals):
+                    loop = n
+    if loop is None:
+        raise AnalysisError("_solve_bruteforce: product is not the iterator of a for loop")
+    good = []
+    for pc in prods:
+        dom = _canon(expand_names(sb.node, pc.args[0])) if len(pc.args) == 1 else None
+        okd = isinstance(dom, ast.IfExp) and src(dom.test) == spinp and \
+            set(literal_tuple(dom.body) or ()) == {1, -1} and len(literal_tuple(dom.body) or ()) == 2 and \
+            set(literal_tuple(dom.orelse) or ()) == {0, 1} and len(literal_tuple(dom.orelse) or ()) == 2
+        if isinstance(dom, ast.IfExp) and src(dom.test) == 'not %s' % spinp:
+            okd = set(literal_tuple(dom.orelse) or ()) == {1, -1} and set(literal_tuple(dom.body) or ()) == {0, 1}
+        ctx.inst('R09.2', sb, dom if dom is not None else pc, okd,
+                 "domain (1, -1) under the spin flag, (0, 1) otherwise" if okd else
+                 "candidate space `%s` is not the full product of {1,-1} for spin / {0,1} for boolean selected by `%s` over "
+                 "every position: assignments are left out of the search" % (src(pc)[:70], spinp))
+        rep = [k for k in pc.keywords if k.arg == 'repeat']
+        nname = src(rep[0].value) if rep else None
+        okr = bool(rep) and isinstance(rep[0].value, ast.Name)
+        ctx.inst('R09.2', sb, pc, okr, "repeat=%s" % nname if okr else "product is not taken to the power N (repeat=%s)" % nname)
+        if okd and okr:
+            good.append(pc)
+    pc = good[0] if good else prods[0]
     rep = [k for k in pc.keywords if k.arg == 'repeat']
     nname = src(rep[0].value) if rep else None
-    okr = bool(rep) and isinstance(rep[0].value, ast.Name)
-    ctx.inst('R09.2', sb, pc, okr, "repeat=%s" % nname if okr else "product is not taken to the power N (repeat=%s)" % nname)
     # sources of N and the label map
     body_assign = [n for n in loop.body if isinstance(n, ast.Assign)]
     mapname = None
